@@ -232,7 +232,10 @@ impl Model for M {
     fn step(&self, s: &St, a: &Act, out: &mut Vec<Viol>) -> Option<St> {
         let mut engine = self.engine_from(s);
         let event = self.event(a);
-        let audit = engine.process(event);
+        let Ok(audit) = crate::core::guarded(|| engine.process(event)) else {
+            out.push(("C14/panic/engine-process".to_string(), format!("before={s:?} event={a:?}: Engine::process panicked")));
+            return None;
+        };
         let got = self.snapshot(&engine);
 
         // reference: the statement
